@@ -358,7 +358,7 @@ Section PollLevel.
     destruct Hy as [Hy|Hy]; [exact (i_dj_ci g t I y Hc Hy) | exact (i_dj_cr g t I y Hc Hy)].
   Qed.
 
-  Lemma Jver_keep t t' x : ok_step g x t t' ->
+  Lemma Jver_keep t t' x : ok_step g x false t t' ->
     status (getrec t x) = FINISHED /\ In x (completed t) /\ ~ In x (inprog t) ->
     status (getrec t' x) = FINISHED /\ In x (completed t') /\ ~ In x (inprog t').
   Proof. intros [O1 O2 O3 _ _ _ _ _] (A & B & D). rewrite O1, O2, O3. auto. Qed.
@@ -379,11 +379,11 @@ Section PollLevel.
           destruct Hin as [Hin|Hin]; auto. destruct (V2 _ Hin) as [A|[r A]]; discriminate. }
       pose proof (J _ _ Hloc Hold) as K. destruct K as (K1 & K2 & K3).
       assert (Aw : away g y x) by (eapply completed_away; eauto).
-      assert (Rk : rep_ok g y (x, o)).
+      assert (Rk : rep_ok g y false (x, o)).
       { destruct Aw as [Aw1 Aw2]. split; cbn [fst snd]; [intros E; congruence | auto]. }
       assert (Ncl : ~ In y cl) by (intros Hc; destruct (H5 y (or_introl Hc)) as (_ & B & _); auto).
       assert (Nca : ~ In y ca) by (intros Hc; destruct (H5 y (or_intror Hc)) as (_ & B & _); auto).
-      pose proof (os_handle_report g y c t cl ca (x, o) Rk Ncl Nca) as O. rewrite H9 in O.
+      pose proof (os_handle_report g y false c t cl ca (x, o) Rk Ncl Nca) as O. rewrite H9 in O.
       destruct O as (O & _ & _). eapply Jver_keep; eauto.
     - (* sweep failed *)
       pose proof (J _ _ Hloc Hin) as K. destruct K as (K1 & K2 & K3).
@@ -402,11 +402,11 @@ Section PollLevel.
       unfold launch_body_gen in *. destruct (ready t) as [|z rest] eqn:Er; [exact (J _ _ Hloc Hin)|].
       assert (Hzr : In z (ready t)) by (rewrite Er; left; reflexivity).
       assert (Old : In (ESubmit y Main false (Some j)) (evs t) ->
-                    forall t', ok_step g y (set_ready t rest) t' ->
+                    forall t', ok_step g y false (set_ready t rest) t' ->
                     status (getrec t' y) = FINISHED /\ In y (completed t') /\ ~ In y (inprog t')).
       { intros Ho t' O. pose proof (J _ _ Hloc Ho) as K.
         assert (Aw : away g y z) by (destruct K as (_ & K2 & _); eapply completed_away; eauto).
-        eapply Jver_keep; [|exact K]. eapply ok_step_trans; [apply (os_pop g y z rest t Er (proj1 Aw))|exact O]. }
+        eapply Jver_keep; [|exact K]. eapply ok_step_trans; [apply (os_pop g y false z rest t Er (proj1 Aw))|exact O]. }
       cbn [canceled set_ready] in *. destruct (canceled t) eqn:Ec.
       + apply (Old Hin). pose proof (J _ _ Hloc Hin) as K. destruct K as (_ & K2 & _).
         assert (Aw : away g y z) by (eapply completed_away; eauto). destruct Aw as [Aw1 _].
@@ -523,15 +523,15 @@ Lemma execute_record_sticky c g z s y : z <> y -> y < length (recs s) ->
   In y (failed s') /\ status (getrec s' y) = FAILED.
 Proof.
   intros Hn Hy Hf Hs. unfold execute_record_gen. cbn [negb].
-  assert (Keep : forall s', ok_step g y s s' -> In y (failed s') /\ status (getrec s' y) = FAILED).
+  assert (Keep : forall s', ok_step g y false s s' -> In y (failed s') /\ status (getrec s' y) = FAILED).
   { intros s' [O1 _ _ O4 _ _ _ _]. rewrite O1, O4. auto. }
   destruct (dry c).
   - apply Keep. eapply ok_step_trans; [|apply os_completed_add; exact Hn].
     eapply ok_step_trans; [apply os_emit | apply os_set_status; exact Hn].
-  - pose proof (os_submit_attempts g y z false (attempts c) Hn (emit (EGen z) s)) as A1.
+  - pose proof (os_submit_attempts g y false z false (attempts c) Hn (emit (EGen z) s)) as A1.
     destruct (submit_attempts_loop g z false (attempts c) (emit (EGen z) s)) as (k & L).
     destruct (submit_attempts g z false (attempts c) (emit (EGen z) s)) as [ok s1]. cbn [fst snd] in *.
-    assert (A : ok_step g y s s1) by (eapply ok_step_trans; [apply os_emit | exact A1]).
+    assert (A : ok_step g y false s s1) by (eapply ok_step_trans; [apply os_emit | exact A1]).
     destruct ok.
     + apply Keep. destruct (negb (scheduled (attr g z))).
       * eapply ok_step_trans; [|apply os_inprog_remove; exact Hn].
@@ -539,7 +539,7 @@ Proof.
         eapply ok_step_trans; [|apply os_set_status; exact Hn].
         eapply ok_step_trans; [exact A | apply os_inprog_add; exact Hn].
       * eapply ok_step_trans; [exact A | apply os_inprog_add; exact Hn].
-    + assert (B : ok_step g y s (inprog_remove z s1))
+    + assert (B : ok_step g y false s (inprog_remove z s1))
         by (eapply ok_step_trans; [exact A | apply os_inprog_remove; exact Hn]).
       destruct (Keep _ B) as [K1 K2]. split.
       * apply mfl_in_failed. auto.
@@ -675,3 +675,21 @@ Module LocalEx.
   Lemma wf_gl : WF gl.
   Proof. apply wf_graph_WF. vm_compute. reflexivity. Qed.
 End LocalEx.
+
+(** C20: RUNNING reports at every executed poll of a run with valid answers *)
+Theorem run_running_valid c g ps t x : WF g -> valid_pins c g (init g) ps = true -> In t (run_steps c g (init g) ps) ->
+  In x (inprog (st_pre t)) ->
+  (forall o, In (x, o) (delivered c (st_pin t)) -> quiet o = true \/ o = Some RUNNING) ->
+  In (x, Some RUNNING) (delivered c (st_pin t)) ->
+  status (getrec (st_post t) x) = RUNNING /\ jobs (getrec (st_post t) x) = jobs (getrec (st_pre t) x) /\
+  restarts (getrec (st_post t) x) = restarts (getrec (st_pre t) x) /\ In x (inprog (st_post t)) /\
+  ~ In x (completed (st_post t)) /\ ~ In x (failed (st_post t)) /\ ~ In x (cancelled (st_post t)).
+Proof.
+  intros W V Ht Hx Hq Hr.
+  destruct (run_steps_valid c g ps W (init g) (init_Inv g) (init_Thr c g) V t Ht) as (I & _ & Vp).
+  destruct (run_steps_poll c g ps _ t Ht) as [E _].
+  apply valid_pin_spec in Vp. destruct Vp as [_ Vi].
+  assert (VR : valid_reports (st_pre t) (st_pin t)) by (intros [y o] Hr'; cbn; eapply Vi; eauto).
+  pose proof (poll_running c g (st_pre t) (st_pin t) x W I VR Hx Hq Hr) as F.
+  rewrite E in F. cbn [fst] in F. tauto.
+Qed.
